@@ -93,7 +93,17 @@ def main():
         finally:
             revert()
     out = f"{VERIF}/sensitivity/results-{'seeded' if seeded else 'own'}-{tier}.json"
-    json.dump([{"name": n, "property": p, "status": s, "clauses": c, "seconds": round(d, 1)} for n, p, s, c, d in results], open(out, "w"), indent=1)
+    # merge into the existing table (a partial run with --only must not drop the other rows)
+    table = {}
+    if os.path.exists(out):
+        try:
+            for r in json.load(open(out)):
+                table[(r["name"], r["property"])] = r
+        except Exception:
+            table = {}
+    for n, p, s, c, d in results:
+        table[(n, p)] = {"name": n, "property": p, "status": s, "clauses": c, "seconds": round(d, 1)}
+    json.dump([table[k] for k in sorted(table)], open(out, "w"), indent=1)
     # the unchanged tree must be quiet again
     assert clean(), "repo not clean after the run"
     return 0
